@@ -143,6 +143,22 @@ func init() {
 	}
 	models["time.NewTimer"] = mkTimer(false)
 	models["time.NewTicker"] = mkTimer(true)
+	// time.AfterFunc: a timer on the virtual clock plus a parked thread that waits for it and then
+	// calls f (prelude helper vAfterFuncWait); Stop/Reset work through the returned Timer
+	models["time.AfterFunc"] = func(e *Engine, st *State, args []Value, call *ssa.Call, pos token.Pos) Value {
+		tt := call.Type().Underlying().(*types.Pointer).Elem()
+		chT := tt.Underlying().(*types.Struct).Field(0).Type()
+		o := newObjFor(tt)
+		ch := Pointer{obj: e.newTimerChan(st, chT, term(args[0]), false), off: BV(64, 0)}
+		o.slots[0] = ch
+		h := e.target.Func("vAfterFuncWait")
+		if h == nil {
+			panic(unsupported{"prelude helper vAfterFuncWait missing"})
+		}
+		modelsUsed["time.AfterFunc on the virtual clock (callback in its own cooperative thread)"]++
+		e.spawn(st, FuncV{fn: h}, []Value{ch, args[1]})
+		return Pointer{obj: st.alloc(o), off: BV(64, 0)}
+	}
 	models["time.After"] = func(e *Engine, st *State, args []Value, call *ssa.Call, pos token.Pos) Value {
 		return Pointer{obj: e.newTimerChan(st, call.Type(), term(args[0]), false), off: BV(64, 0)}
 	}
